@@ -71,8 +71,92 @@ def decimal (ty : String) (bits : Nat) : String :=
   let w := match ty with | "u8" | "i8" => 8 | "u16" | "i16" => 16 | "u32" | "i32" => 32 | _ => 64
   if ty.startsWith "i" && bits ≥ 2 ^ (w - 1) then s!"-{2 ^ w - bits}" else s!"{bits}"
 
+
+/-! ### lists built by the host (`c10 <pw> hl <op> <list> <args…>`): `lu:1,2,3`,
+    `ls:x61,x,x62` (elements hex, `x` = the empty string), `lc:97,233`; the
+    empty list is `lu:` / `ls:` / `lc:` -/
+
+def listItems (rest : List Char) : List String :=
+  ((String.ofList rest).splitOn ",").filter (fun t => t ≠ "")
+
+/-- index validation goes through the generated `list_get_lookup` / `bind_ErasedList_swap`
+    (size-`size` elements), the element itself comes from the list -/
+def hlOps [Target] {α : Type} [BEq α] (showE : α → String) (parseE : String → Option α) (size : Nat)
+    (l : List α) (op : String) (args : List String) : String :=
+  let n := l.length
+  match op, args with
+  | "len", [] => showNat n
+  | "capacity", [] => showNat (listCapacityAfter size n)
+  | "is_empty", [] => showBool (n == 0)
+  | "get", [i] =>
+    showRes (showOpt (fun (o : USz) => match l[o.toNat / size]? with | some e => showE e | none => "out-of-range"))
+      (list_get_lookup false (rawList size n) (u64 i))
+  | "swap", [i, j] =>
+    match bind_ErasedList_swap false (rawList size n) (u64 i) (u64 j) with
+    | .panic => "panic"
+    | .ok none => showList showE l
+    | .ok (some (oi, oj)) =>
+      match l[oi.toNat / size]?, l[oj.toNat / size]? with
+      | some a, some b => showList showE ((l.set (oi.toNat / size) b).set (oj.toNat / size) a)
+      | _, _ => "out-of-range"
+  | "index", [x] =>
+    match parseE x with
+    | some e => showOpt showNat (l.idxOf? e)
+    | none => "bad-op"
+  | "contains", [x] =>
+    match parseE x with
+    | some e => showBool (l.contains e)
+    | none => "bad-op"
+  | "push", [x] =>
+    match parseE x with
+    | some e => showList showE (l ++ [e])
+    | none => "bad-op"
+  | _, _ => "bad-op"
+
+def parseLU (tok : String) : Option (List Nat) :=
+  match tok.toList with
+  | 'l' :: 'u' :: ':' :: rest => some ((listItems rest).map String.toNat!)
+  | _ => none
+def parseLS (tok : String) : Option (List Str) :=
+  match tok.toList with
+  | 'l' :: 's' :: ':' :: rest => (listItems rest).mapM parseStr
+  | _ => none
+def parseLC (tok : String) : Option (List Char) :=
+  match tok.toList with
+  | 'l' :: 'c' :: ':' :: rest => some ((listItems rest).map (fun t => Char.ofNat t.toNat!))
+  | _ => none
+
+instance : BEq Str := ⟨fun a b => a.chars == b.chars⟩
+
+def handleHL [Target] (args : List String) : String :=
+  match args with
+  | op :: tok :: rest =>
+    match parseLU tok, parseLS tok, parseLC tok with
+    | some l, _, _ =>
+      match op, rest with
+      | "forsum", [] => showNat (l.foldl (fun a x => a + x % 1000) 0)
+      | "concat", [m] => match parseLU m with | some m => showList showNat (l ++ m) | none => "bad-op"
+      | "eq", [m] => match parseLU m with | some m => showBool (l == m) | none => "bad-op"
+      | _, _ => hlOps showNat (fun t => t.toNat?) 8 l op rest
+    | _, some l, _ =>
+      match op, rest with
+      | "join", [sep] =>
+        match parseStr sep with
+        | some sep => showRes showStr (bind_ErasedList_join false l sep)
+        | none => "bad-op"
+      | "concat", [m] => match parseLS m with | some m => showList showStr (l ++ m) | none => "bad-op"
+      | "eq", [m] => match parseLS m with | some m => showBool (l == m) | none => "bad-op"
+      | _, _ => hlOps showStr parseStr 16 l op rest
+    | _, _, some l =>
+      match op, rest with
+      | "from_chars", [] => showStr ⟨l⟩
+      | _, _ => hlOps showChar (fun t => t.toNat?.map Char.ofNat) 4 l op rest
+    | _, _, _ => "bad-op"
+  | _ => "bad-op"
+
 def handleT [Target] (args : List String) : String :=
   match args with
+  | "hl" :: rest => handleHL rest
   | [f, x] =>
     match f, parseStr x with
     | "bytes_len", some s => showRes (fun v => showNat v.toNat) (bind_StringBytes_len false s)
